@@ -26,12 +26,15 @@ META["text"] = (
     "(6) gather/scatter are mutually inverse on distinct in-range indices; "
     "(7) band-dense format: band2Dense(dense2Band M) keeps exactly the stored part of M and dense2Band(band2Dense B) reproduces the storage including unused slots; symmetrize flag; "
     "(8) mju_sym2dense is the full symmetric matrix of a lower-triangular CSR matrix and mju_mulSymVecSparse multiplies by it (these are mj_fullM / mj_mulM); "
+    "(8b) supernodes: the model's rowsuper vector (definition: number of following rows with an identical column list) is proved to mark exactly the maximal runs of identical rows (C23_supernodes); mju_superSparse and the res_rowsuper output of "
+    "mju_transposeSparse (sorted input rows) are tied to it exactly, and checked by the oracle, on random and on structured patterns (block-diagonal with single-row and multi-row blocks, staircases, banded, runs of identical rows, empty rows), "
+    "and their consumers mju_mulMatVecSparse(rowsuper) and mju_sqrMatTDSparse are checked against the dense products on the same patterns; "
     "(9) mju_cholSolve: for every n, every storage L with non-zero diagonal (strict upper triangle ignored) and every b, (low L)(low L)' x = b; "
     "(10) mju_cholFactor (in-place, column by column): for every n and every A, if mindiag > 0 and no column is rank-deficient (returned rank = n) then the lower triangle holds L with positive diagonal and L L' = A on the lower triangle, "
     "the strict upper triangle is untouched, and cholSolve(cholFactor A, b) solves (symmetric A) x = b (C23_chol_factor, C23_chol_factor_solve); nothing is proved about the rank-deficient branch. "
     "NOT proved (models exist and are tied, oracle on outputs): mju_cholUpdate, mju_combineSparseCount = length of the merge, mju_addToMatSparse/addToSymSparse, mju_dotSparse2, the rank-deficient branch of mju_cholFactor. "
     "NOT modelled (oracle only, on implementation outputs of both builds): the dense blas kernels against their definitions, mju_sqrMatTDSparse(_row/Count) against dense M' diag M and the structural pattern, "
-    "mju_superSparse and the rowsuper output of transposeSparse against the supernode definition, mju_cholFactorBand/cholSolveBand/bandMulMatVec, mju_factorLU/solveLU/LU6/solve3, mju_cholFactorSparse/cholSolveSparse/cholUpdateSparse, "
+    "mju_cholFactorBand/cholSolveBand/bandMulMatVec, mju_factorLU/solveLU/LU6/solve3, mju_cholFactorSparse/cholSolveSparse/cholUpdateSparse, "
     "mju_factorLUSparse/solveLUSparse (residuals and reconstructions, 1e-9 / 1e-8), mju_eig3 (orthonormal to 1e-9, quaternion consistent, eigenvalues sorted, reconstruction only to ~1e-6 relative: the Jacobi loop stops at rotation angles below ~1.4e-6 by design; "
     "the measured maximum is recorded in the evidence), mju_QCQP/QCQP2/QCQP3 and mju_boxQP (KKT conditions with the routines' own termination tolerances 1e-8 / 1e-7, not 1e-9). "
     "Not covered at all: mju_cholFactorSymbolic/Numeric, mju_addToSparseMat, mju_addChains, mju_combineSparseInc, mju_addToSclSparseInc, mju_block*, NaN/Inf inputs. "
@@ -566,11 +569,15 @@ class Transpose(Case):
     def coq(self, o):
         if self.S.nr == 0 or self.S.nc == 0:
             return None
-        return cq(8, self.S.coq(), [[self.S.nr, self.S.nc]], [], [o[0], o[1], o[2]], [o[3]])
+        insorted = all([c for c, _ in r] == sorted(c for c, _ in r) for r in self.S.rows)
+        return cq(8, self.S.coq(), [[self.S.nr, self.S.nc, 1 if insorted else 0]], [], [o[0], o[1], o[2], o[4]], [o[3]])
 
 
 class Super(Case):
-    op, schema = "super", "i"
+    op, schema, coq_op = "super", "i", 19
+
+    def coq(self, o):
+        return cq(19, self.S.coq(), [[self.S.nr]], [], [o[0]], [])
 
     def line(self):
         return "super " + self.S.text()
@@ -1095,7 +1102,7 @@ def gen_cases(rng, tier):
         M = rowsof(rvals(rng, nr * nc, rng.choice(["z", "z", "u", "i"])), nr, nc)
         tot = sum(1 for x in flat(M) if x != 0)
         cs.append(D2S(nr=nr, nc=nc, M=M, cap=rng.choice([tot, tot, tot + 3, tot - 1, 0, 1, nr * nc + 1])))
-    for _ in range((28 if T == 1 else 40 * T)):
+    for _ in range((18 if T == 1 else 40 * T)):
         nr, nc = rng.randrange(0, 9), rng.randrange(1, 20)
         S = rand_csr(rng, nr, nc)
         cs.append(S2D(S=S))
@@ -1103,7 +1110,7 @@ def gen_cases(rng, tier):
         cs.append(MulMatTVec(S=S, v=rvals(rng, nr)))
         if nr:
             cs.append(Transpose(S=S))
-    for _ in range(15 * T):
+    for _ in range((8 if T == 1 else 15 * T)):
         # supernodes: blocks of identical rows
         nc = rng.randrange(1, 16)
         rows = []
@@ -1116,7 +1123,23 @@ def gen_cases(rng, tier):
         cs.append(MulMatVec(S=S, v=rvals(rng, nc), sup=1))
         cs.append(Transpose(S=S))
         cs.append(Transpose(S=CSR(rowsT(rows, nc), len(rows), rng, "compact")))
-    for _ in range((28 if T == 1 else 40 * T)):
+    # structured patterns (sorted columns): block-diagonal with single-row and multi-row blocks, staircases without and
+    # with overlap, banded, runs of identical rows, empty rows in between: supernode detection of transposeSparse /
+    # superSparse and its consumers (mulMatVecSparse with supernodes, sqrMatTDSparse)
+    for pat, nc in structured_patterns(rng, (2 if T == 1 else 3 * T)):
+        rows = [[(c, rnz(rng)) for c in cols] for cols in pat]
+        S = CSR(rows, nc, rng, "compact")
+        cs.append(Transpose(S=S))
+        cs.append(Super(S=S))
+        cs.append(MulMatVec(S=S, v=rvals(rng, nc), sup=1))
+        St = CSR(rowsT(rows, nc), len(rows), rng, "compact")
+        cs.append(Transpose(S=St))
+        cs.append(Super(S=St))
+        cs.append(MulMatVec(S=St, v=rvals(rng, len(rows)), sup=1))
+        if len(rows) <= 10 and nc <= 10 and rows:
+            cs.append(SqrSparse(S=S, dg=[rng.uniform(0.2, 2) for _ in rows], usediag=rng.randrange(2)))
+            cs.append(SqrSparse(S=St, dg=[rng.uniform(0.2, 2) for _ in range(nc)], usediag=rng.randrange(2)))
+    for _ in range((18 if T == 1 else 40 * T)):
         n = rng.randrange(1, 14)
         di = sorted(rng.sample(range(n), rng.randrange(0, n + 1)))
         si = list(di) if rng.random() < 0.25 else sorted(rng.sample(range(n), rng.randrange(0, n + 1)))
@@ -1129,7 +1152,7 @@ def gen_cases(rng, tier):
         Dr = [sorted(rng.sample(range(nc), rng.randrange(0, nc + 1))) if rng.random() < 0.7 else [c for c, _ in M.rows[r]] for r in range(nr)]
         D = CSR([[(c, rnz(rng)) for c in cols] for cols in Dr], nc, rng, "gaps", room=[nc] * nr)
         cs.append(AddToMat(D=D, M=M))
-    for _ in range((28 if T == 1 else 40 * T)):
+    for _ in range((18 if T == 1 else 40 * T)):
         nr, nc = rng.randrange(1, 9), rng.randrange(1, 12)
         S = rand_csr(rng, nr, nc, layout=rng.choice(["compact", "gaps", "gaps"]), kind=rng.choice(["u", "z", "i"]))
         cs.append(Compress(S=S, minval=rng.choice([-1.0, -1.0, 0.0, 0.0, 0.5, 1.0, 1.5])))
@@ -1171,7 +1194,7 @@ def gen_cases(rng, tier):
         cs[-1].vec = rvals(rng, nt * cs[-1].nv, "u")
     # dense factorizations
     for n in list(range(1, 12)) + [13, 16, 17]:
-        for _ in range(2 * T):
+        for _ in range((1 if T == 1 else 2 * T)):
             A = rspd(rng, n)
             for i in range(n):
                 for j in range(i + 1, n):
@@ -1250,6 +1273,53 @@ def gen_cases(rng, tier):
     return cs
 
 
+def structured_patterns(rng, reps):
+    """list of (rows as sorted column lists, nc)."""
+    out = []
+    # the smallest staircases / block diagonals, deterministic
+    out.append(([[0, 1], [2, 3, 4], [5]], 6))
+    out.append(([[0], [1]], 2))
+    out.append(([[0, 1], [2, 3]], 4))
+    out.append(([[0], [1], [2], [3]], 4))
+    out.append(([[0, 1, 2], [], [3, 4]], 5))
+    out.append(([[0, 1], [0, 1], [2, 3], [2, 3]], 4))
+    out.append(([[0, 1], [1, 2], [2, 3]], 4))
+    for _ in range(reps):
+        # block diagonal, single-row blocks (staircase without overlap)
+        widths = [rng.randrange(1, 4) for _k in range(rng.randrange(1, 6))]
+        pat, c = [], 0
+        for w in widths:
+            pat.append(list(range(c, c + w)))
+            c += w
+        out.append((pat, c + rng.randrange(0, 2)))
+        # block diagonal, blocks of 1..3 identical rows, optional empty rows
+        pat, c = [], 0
+        for _k in range(rng.randrange(1, 5)):
+            w = rng.randrange(1, 4)
+            for _r in range(rng.randrange(1, 4)):
+                pat.append(list(range(c, c + w)))
+            if rng.random() < 0.3:
+                pat.append([])
+            c += w
+        out.append((pat, c))
+        # staircase with overlap / shifted starts
+        n, w, sh = rng.randrange(1, 7), rng.randrange(1, 4), rng.randrange(1, 3)
+        pat = [list(range(k * sh, k * sh + w)) for k in range(n)]
+        out.append((pat, (n - 1) * sh + w))
+        # banded
+        n, b = rng.randrange(1, 8), rng.randrange(0, 3)
+        out.append(([list(range(max(0, k - b), min(n, k + b + 1))) for k in range(n)], n))
+        # random rows each followed by a random number of copies, sorted
+        nc = rng.randrange(1, 9)
+        pat = []
+        for _k in range(rng.randrange(1, 5)):
+            cols = sorted(rng.sample(range(nc), rng.randrange(0, nc + 1)))
+            for _r in range(rng.randrange(1, 3)):
+                pat.append(list(cols))
+        out.append((pat, nc))
+    return out
+
+
 def rowsT(rows, nc):
     """entry lists of the transpose of a CSR given by rows."""
     out = [[] for _ in range(nc)]
@@ -1309,7 +1379,9 @@ Definition chk (c : Z * (csr float * list (list Z) * list (list float)) * (list 
     nzq (map fst (c_ent R)) (li oi 3) && fex (map snd (c_ent R)) (lf ofl 0)
   else if (op =? 8)%Z then
     let R := transposeSparse (gn ia 0 0) (gn ia 0 1) Sm in
-    nzq (c_nnz R) (li oi 0) && nzq (c_adr R) (li oi 1) && nzq (map fst (c_ent R)) (li oi 2) && fex (map snd (c_ent R)) (lf ofl 0)
+    nzq (c_nnz R) (li oi 0) && nzq (c_adr R) (li oi 1) && nzq (map fst (c_ent R)) (li oi 2) && fex (map snd (c_ent R)) (lf ofl 0) &&
+    (if (gi ia 0 2 =? 1)%Z then nzq (transposeSparse_super (gn ia 0 0) (gn ia 0 1) Sm) (li oi 3) else true)
+  else if (op =? 19)%Z then nzq (superSparse (gn ia 0 0) Sm) (li oi 0)
   else if (op =? 9)%Z then
     let n := gn ia 0 0 in
     let M0 := rowsOf n n (lf fa 1) in
@@ -1350,7 +1422,7 @@ Definition chk (c : Z * (csr float * list (list Z) * list (list float)) * (list 
 
 def run(ctx):
     rng = ctx.rng
-    ctx.coq_props(allowed_axioms=F.STD_AXIOMS, extra_targets=["Lib/NumF.vo", "Model/Sparse.vo", "Model/Chol.vo"])
+    ctx.coq_props(allowed_axioms=F.STD_AXIOMS, extra_targets=["Lib/NumF.vo", "Model/Sparse.vo", "Model/SparseSuper.vo", "Model/Chol.vo"])
     builds = [("scalar", ctx.driver("c23_linalg", ["c23_linalg.c"])),
               ("avx", ctx.driver("c23_linalg_avx", ["c23_linalg.c"], extra=("-mavx", "-DmjUSEPLATFORMSIMD")))]
     if any(e is None for _, e in builds):
@@ -1394,7 +1466,7 @@ def run(ctx):
                     coq_cases.append(cc)
                     coq_src.append((bname, k))
             stats[c.op] = stats.get(c.op, 0) + 1
-    imports = ("From Coq Require Import ZArith List Bool PrimFloat.\nFrom MJV Require Import Lib.Num Lib.NumF Model.Sparse Model.Chol.\n"
+    imports = ("From Coq Require Import ZArith List Bool PrimFloat.\nFrom MJV Require Import Lib.Num Lib.NumF Model.Sparse Model.SparseSuper Model.Chol.\n"
                "Import ListNotations.\nOpen Scope Z_scope.")
     bad = ctx.coq_eval("c23", imports, coq_cases, "chk", shard=250, pre=COQ_PRE)
     seen = set()
